@@ -203,6 +203,23 @@ def run(ctx):
     ctx.instance(R4, "validate_value[enumerated field]", ok,
                  "for a field with enumerators acceptance is not exactly 'value in the enumerated values' (another test is consulted or a non-member passes)", loc(fn))
 
+    # the enumerators are filled into a SchemaField that is fresh for this dictionary (an object shared between dictionaries accumulates the union of their enumerators)
+    pfn = repo.func("FIXSchema._parse_field")
+    from sa.guards import reaching_defs as _rd
+    pg = CFG(pfn)
+    rdm = _rd(pg, exc=False)
+    vw = [n for n in pg.nodes if n.kind == "stmt" and isinstance(n.ast, ast.Assign) and isinstance(n.ast.targets[0], ast.Subscript) and unparse(n.ast.targets[0].value).endswith(".values")]
+    okf = bool(vw)
+    for n in vw:
+        obj = unparse(n.ast.targets[0].value)[:-len(".values")]
+        for d in rdm[n.id].get(obj, set()):
+            v = getattr(pg.nodes[d].ast, "value", None)
+            if not (isinstance(v, ast.Call) and unparse(v.func) == "SchemaField"):
+                okf = False
+    ctx.instance(R4, "_parse_field[enumerators written into a fresh SchemaField]", okf,
+                 "the enumerators of a dictionary are written into a SchemaField that may come from somewhere else than a fresh constructor call (a cache shared between "
+                 "dictionaries): a field then accepts the enumerators of every dictionary loaded in the process", loc(pfn))
+
     # ------------------------------------------------------------------ rule 5
     raises = [n for n in walk_no_nested(fn) if isinstance(n, ast.Raise)]
     ctx.instance(R5, "validate_value[raises only FIXMessageError]", bool(raises) and all(n.exc is not None and unparse(n.exc.func if isinstance(n.exc, ast.Call) else n.exc) == "FIXMessageError" for n in raises),
